@@ -113,7 +113,12 @@ def gen_scenario(rng, max_procs=4, max_steps=3, p_quiet=0.25, allow_empty=True, 
     calls = [[rng.choice([1, 2, 3, 4, 5, 6, 7, 9, 12]), rng.random() < 0.5] for _ in range(ncalls)]
     if rng.random() < 0.6:
         calls[-1][1] = True
-    if zero_calls and rng.random() < 0.12:
+    if zero_calls == 'after_forced':
+        # a zero-length forced call right after a forced one: everybody is complete, nothing happens, no row
+        forced = [i for i, c in enumerate(calls) if c[1]]
+        if forced and rng.random() < 0.15:
+            calls.insert(rng.choice(forced) + 1, [0, True])
+    elif zero_calls and rng.random() < 0.12:
         # a forced completion of length 0: whoever was left behind catches up, whoever is complete is left alone
         calls.insert(rng.randrange(1, len(calls) + 1), [0, True])
     # emit_step in ticks; emitEvery iff emit_step (in time units) == 1
